@@ -1,5 +1,5 @@
 """C15 -- the v1 license archive round-trips.  T (main leg): seeded subsets/orderings of the 178 shipped files plus synthetic ones (text after the END marker, notice-only text, a .header file, non-.txt names) archived with the real ArchiveLicenses, loaded with New(ArchiveBytes) and compared with a directly built classifier: key sets, normalised values, and NearestMatch/MultipleMatch on every query (TraceV1 memo).
-M/G: V1Archive (entry pairing of ArchiveLicenses / registerLicenses, RoundTrip) -- every ordered set of <= 4 (5) files out of 6 candidates (license, .header, notice-only text, non-.txt names) archived and loaded for real."""
+M/G: V1Archive (entry pairing of ArchiveLicenses / registerLicenses, RoundTrip) -- every ordered set of <= 4 (5) files out of 9 candidates (license, .header, notice-only text, non-.txt names, a file with another file's text in other case, names with .txt / .hash inside) archived and loaded for real."""
 import os, time
 from lib import vlib
 from lib.vlib import go_overlay_test, read_ndjson, sub, tlc, tlc_require_ok
